@@ -32,8 +32,8 @@ def run(tier, seed):
     from vlib import smt
     smt.close_pool()
     try:
-        from bounded import estimators_rel
-        estimators_rel.run(chk, tier, seed)
+        from bounded import estimator_rel
+        estimator_rel.run_c20(chk, tier, seed)
     except ImportError:
         chk.notes.append("bounded comparison with real bisection not built yet")
     return chk.finish()
